@@ -1207,6 +1207,20 @@ package decimal128
 //@ apply before "exp -= 4"#4: scale_rel(prev(rs(V, exp)), rs(V, exp - 4), prev(u128(sig)), u128(sig), prev(u128(rem)), u128(rem), u128(oSig), 10000)
 //@ apply before "exp--"#4: scale_rel(prev(rs(V, exp)), rs(V, exp - 1), prev(u128(sig)), u128(sig), prev(u128(rem)), u128(rem), u128(oSig), 10)
 //@ assert before "sig = uint128{sig64, carry}": rs(V, exp) * u128(oSig) == (sig64 + W * carry) * u128(oSig) + rem64 && rem64 < oSig[0] && carry <= 1
+//@ ghost G8 int = 0
+//@ ghost R8 int = 0
+//@ ghost S8 int = 0
+//@ ghost after "trunc := int8(0)": G8 = exp
+//@ ghost after "trunc := int8(0)": R8 = u128(rem)
+//@ ghost after "trunc := int8(0)": S8 = u128(sig)
+//@ ghost after "sig = uint128{sig192[0], sig192[1]}": G8 = exp
+//@ ghost after "sig = uint128{sig192[0], sig192[1]}": R8 = u128(rem)
+//@ ghost after "sig = uint128{sig192[0], sig192[1]}": S8 = u128(sig)
+//@ loop 8: invariant G8 == exp && R8 == u128(rem) && S8 == u128(sig)
+//@ loop 9: invariant exp <= G8 && (exp == G8 ==> u128(rem) == R8 && u128(sig) == S8) && (exp < G8 ==> u128(sig) >= 10 * S8) && R8 < u128(oSig) && S8 < 0x28000000000000 * W
+//@ loop 10: invariant exp <= G8 && (exp == G8 ==> u128(rem) == R8 && u128(sig) == S8) && (exp < G8 ==> u128(sig) >= 10 * S8) && R8 < u128(oSig) && S8 < 0x28000000000000 * W
+//@ loop 11: invariant u192(sig192) > S8 && S8 < 0x28000000000000 * W
+//@ loop 8: decreases 2 * W * W - u128(sig)
 //@ props C02 C15 C19 C20
 
 // x * ov == s * ov + rem with 0 <= rem < ov pins x between s and s + 1 (cancellation of the positive divisor)
